@@ -296,6 +296,19 @@ def run_case_c11(ops, edit_ops, rng, stats, m, light=False):
                 elif E2 is not None and (iu == '1') != E2.expected_unique(t):
                     P.add('oracle', 'C11|unique-after-edit', href=t, impl=iu, edits=[' '.join(o) for o in edit_ops])
                 stats['after-edit:valid=%s' % iv] += 1
+                # a stale reference used as the ROOT of a query must not yield references that report invalid
+                if iv == '0':
+                    import spydrnet as _sdn
+                    for qname, q in (('get_hports', _sdn.get_hports), ('get_hpins', _sdn.get_hpins), ('get_hcables', _sdn.get_hcables),
+                                     ('get_hwires', _sdn.get_hwires), ('get_hinstances', _sdn.get_hinstances)):
+                        try:
+                            res = list(q(h))
+                        except Exception:
+                            res = []
+                        badrefs = [x for x in res if not x.is_valid]
+                        if badrefs:
+                            P.add('oracle', 'C11|stale-root|%s-returns-invalid-reference' % qname, href=t, edits=[' '.join(o) for o in edit_ops])
+                            break
             if E2 is not None:
                 ans = m.ask(['enum %s %d 1' % (k, n) for k in KINDS])
                 for k, a in zip(KINDS, ans):
